@@ -293,6 +293,7 @@ func runC18(c *core.Ctx) core.Meta {
 	lp.InlinePure = true
 	checkWGDistribution(c, lp, "R18.6")
 	checkFilteredCountWholeGrid(c, "R18.11")
+	checkPerKernelFieldsStoredAlways(c, "R18.13")
 	checkLocalRangeOfGPU(c, "R18.12", NewPkgInfo(c, tconfigPkg), NewPkgInfo(c, r9nanoPkg), NewPkgInfo(c, mi300aPkg))
 
 	// R18.9: the driver counts the work-groups it distributes with the grid builder's formula (R08.1's check)
